@@ -118,6 +118,7 @@ type Variant struct {
 	Replace string `json:"replace"`
 	Expect  string `json:"expect"` // substring expected in the report line (usually a function name)
 	Inverse bool   `json:"inverse"` // if true: the variant must be silent for Rule
+	Patch   string `json:"patch"`   // instead of File/Find/Replace: a unified diff (path relative to the verification directory) applied with git apply
 	Edits   []struct {
 		File    string `json:"file"`
 		Find    string `json:"find"`
@@ -240,14 +241,23 @@ func runVariant(def *PropertyDef, v Variant, repo, verifDir string) VariantResul
 		res.Outcome, res.Detail = "error", err.Error()
 		return res
 	}
-	ok, err := applyEdit(tmp, v.File, v.Find, v.Replace)
-	if err != nil {
-		res.Outcome, res.Detail = "error", err.Error()
-		return res
-	}
-	if !ok {
-		res.Outcome, res.Detail = "skipped", "anchor text not found exactly once (the repository was edited there)"
-		return res
+	if v.Patch != "" {
+		ap := exec.Command("git", "apply", filepath.Join(verifDir, v.Patch))
+		ap.Dir = tmp
+		if out, err := ap.CombinedOutput(); err != nil {
+			res.Outcome, res.Detail = "skipped", "patch no longer applies to the current tree: "+firstLine(string(out))
+			return res
+		}
+	} else {
+		ok, err := applyEdit(tmp, v.File, v.Find, v.Replace)
+		if err != nil {
+			res.Outcome, res.Detail = "error", err.Error()
+			return res
+		}
+		if !ok {
+			res.Outcome, res.Detail = "skipped", "anchor text not found exactly once (the repository was edited there)"
+			return res
+		}
 	}
 	for _, e := range v.Edits {
 		ok, err := applyEdit(tmp, e.File, e.Find, e.Replace)
